@@ -410,6 +410,12 @@ def run(prog, tier, seed):
         # depends on the iteration order of sets
         return c02.rule_ltl4(prog, c02.discover(prog))
 
+    def _ltl3(prog):
+        # consistent renaming of the atomic propositions: an atom must be
+        # looked up in the labels by its name (or by itself), whatever the
+        # name looks like
+        return c02.rule_ltl3(prog, c02.discover(prog))
+
     def _ctl13(prog):
         entry, labeller, memo_ok, why = c01.discover_labeller(prog)
         try:
@@ -420,7 +426,7 @@ def run(prog, tier, seed):
             r1, table = e.partial
         return c01.rule_ctl3(prog, labeller, table, tier)
     dep = adopt(T.results(T(c19.rule_res5, prog), T(_ltl0, prog),
-                          T(_ltl4, prog),
+                          T(_ltl4, prog), T(_ltl3, prog),
                           T(_ctl13, prog), T(c12.rule_scc, prog),
                           T(c12.rule_scc6, prog)),
                 PROP, 'order / naming sensitive spot')
